@@ -72,6 +72,7 @@ type Interp struct {
 	atoms    []Atom // recorded predicate atoms (differential mode)
 	invMemo   map[string]*Term
 	bigVals   map[*Obj]*Term
+	bigField  map[*Obj]*Term // big.Int objects that carry a field value (Element.BigInt / SetBigInt)
 	codecStore [][]Val
 	noSummary bool  // set while running a harness whose name says it validates a summary
 	curFn    []string
